@@ -3241,7 +3241,7 @@ def _put_one_raw(
 
     if ast_cls is Lambda and child.__class__ is arguments and childf.is_empty_arguments():  # SUPER SPECIAL CASE, adding arguments to lambda without them, may need to prepend a space to source being put
         if not put_lines[0][:1].isspace():
-            put_lines[0] =  ' ' + put_lines[0]
+            put_lines = [' ' + put_lines[0], *put_lines[1:]]  # new list, put_lines may be the caller's `code`
 
     if loc is None:
         if childf:
